@@ -16,7 +16,8 @@ PROP = "C17"
 RULE = (
     "cases = (ADMG n<=5 with hostile classes, district T of G, non-empty C subset of T with G[C] bidirected-"
     "connected, a random valid topological order of G, Q[T] given as the Lemma-1 product of conditionals or, when "
-    "T=V, as the plain joint) through the real identify_district_variables; compute_c_factor on every district of "
+    "T=V, as the plain joint, or - when T closes the order - as the single conditional P(T | rest); plain or population-"
+    "tagged) through the real identify_district_variables; compute_c_factor on every district of "
     "every ancestral sub-graph. Post-conditions: the returned expression evaluated on K random positive SCMs "
     "(exact rationals) must equal Q[C](v) = P(C=c | do(V-C = v-c)) for ALL value assignments v of V; "
     "assume/guarantee contracts on the internal lemma routines (compute_c_factor, Lemma 1, Lemma 4, Lemma 3 / "
@@ -59,7 +60,11 @@ def denotes_q(expr, H, want_free=True):
         return "no", f"mentions {sorted(fv - set(names))} outside the graph"
     n = 0
     for h, m in CTX["models"]:
-        den = Denoter(m, ref={x: 0 for x in names}, alt={x: 1 for x in names})
+        # a population tag only names the distribution the routines work on: every tag denotes the context model
+        from ..denote import TARGET
+
+        fam = {TARGET: m, "π1": m, "π2": m}
+        den = Denoter(fam, ref={x: 0 for x in names}, alt={x: 1 for x in names})
         for vals in itt.product(*[m.values(x) for x in names]):
             v = dict(zip(names, vals))
             try:
@@ -209,25 +214,38 @@ def run_graph(ctx, gd, rng, K):
     if not CTX["models"]:
         return
     topo = random_topo(ref, rng)
-    joint = P(topo)
+    from y0.dsl import PP, Variable
+
+    # the distribution the routines work on: the plain joint, or a population-tagged one (as the transport code passes)
+    tagged = rng.random() < 0.35
+    mk = PP[Variable("π1")] if tagged else P
+    joint = mk(topo)
     districts = sorted(ref.districts(), key=lambda d: sorted(map(str, d)))
     for T in districts:
         Tl = [v for v in topo if v in T]
         forms = ["lemma1"]
         if len(districts) == 1:
             forms.append("joint")
+        k0 = len(topo) - len(Tl)
+        if 0 < k0 and set(topo[k0:]) == set(Tl):
+            # T closes the topological order: Q[T] = prod P(t | predecessors) = P(T | the rest), one conditional term
+            forms += ["suffix-conditional"] * 2
         subsets = [c for r in range(1, len(Tl) + 1) for c in itt.combinations(Tl, r)
                    if len(ref.subgraph(c).districts()) == 1]
         rng.shuffle(subsets)
         for C in subsets[:6]:
             form = rng.choice(forms)
             kernel.LOG.reset_case({"graph": gd, "T": sorted(v.name for v in T), "C": sorted(v.name for v in C),
-                                   "topo": [v.name for v in topo], "form": form})
+                                   "topo": [v.name for v in topo], "form": form, "tagged": tagged})
             try:
                 if form == "lemma1":
                     with kernel.quiet():
                         qT = compute_c_factor_conditioning_on_topological_predecessors(district=Tl, graph_probability=joint,
                                                                                        topo=topo)
+                elif form == "suffix-conditional":
+                    from y0.dsl import Distribution
+
+                    qT = joint._new(Distribution(children=tuple(Tl), parents=tuple(topo[:k0])))
                 else:
                     qT = joint
                 res = identify_district_variables(input_variables=frozenset(C), input_district=frozenset(T),
@@ -248,14 +266,21 @@ def run_graph(ctx, gd, rng, K):
         # and as a chain-rule product (both Lemma 4)
         from y0.dsl import Product, Sum
 
-        forms = {"plain": P(Al)}
+        forms = {"plain": mk(Al)}
         rest = [v for v in topo if v not in A]
         if rest:
-            forms["sum"] = Sum.safe(P(topo), rest)
+            forms["sum"] = Sum.safe(mk(topo), rest)
         if len(Al) >= 2:
-            forms["product"] = Product.safe(P(Al[i] | Al[:i]) if i else P(Al[0]) for i in range(len(Al)))
+            forms["product"] = Product.safe(mk(Al[i] | Al[:i]) if i else mk(Al[0]) for i in range(len(Al)))
+            # the chain rule holds along ANY order of A, also one that is not a topological order of the graph
+            sh = Al[:]
+            rng.shuffle(sh)
+            forms["product-any-order"] = Product.safe(mk(sh[i] | sh[:i]) if i else mk(sh[0]) for i in range(len(sh)))
+            CTX["any_order"] = [v.name for v in sh]
         for fname, qa in forms.items():
             kernel.LOG.case["qa_form"] = fname
+            kernel.LOG.case["tagged"] = tagged
+            kernel.LOG.case["any_order"] = CTX.get("any_order")
             try:
                 compute_c_factor(district=[v for v in topo if v in D], subgraph_variables=Al, subgraph_probability=qa,
                                  graph_topo=topo)
@@ -269,7 +294,7 @@ def run_shard(ctx):
     rng = ctx.rng
     K = {"quick": 2, "thorough": 3}[ctx.tier]
     hostile = {}
-    for i in range(ctx.share({"quick": 260, "thorough": 6000}[ctx.tier])):
+    for i in range(ctx.share({"quick": 640, "thorough": 6000}[ctx.tier])):
         n = rng.choice([3, 4, 4, 5, 5])
         gd = gg.random_admg(rng, n, hostile=rng.choice(["onedistrict", "bichain", "bow", "none", "multidistrict", "bionly",
                                                          "isolated", "names_unsorted", "names_prefixed"]))
@@ -295,24 +320,36 @@ def replay(case):
         Al = [Variable(n) for n in case["A"]]
         from y0.dsl import Product, Sum
 
+        from y0.dsl import PP
+
+        mk = PP[Variable("π1")] if case.get("tagged") else P
         form = case.get("qa_form", "plain")
         rest = [v for v in topo if v not in Al]
-        qa = P(Al)
+        qa = mk(Al)
         if form == "sum" and rest:
-            qa = Sum.safe(P(topo), rest)
+            qa = Sum.safe(mk(topo), rest)
         elif form == "product" and len(Al) >= 2:
-            qa = Product.safe(P(Al[i] | Al[:i]) if i else P(Al[0]) for i in range(len(Al)))
+            qa = Product.safe(mk(Al[i] | Al[:i]) if i else mk(Al[0]) for i in range(len(Al)))
+        elif form == "product-any-order" and case.get("any_order"):
+            sh = [Variable(n) for n in case["any_order"]]
+            qa = Product.safe(mk(sh[i] | sh[:i]) if i else mk(sh[0]) for i in range(len(sh)))
         compute_c_factor(district=[v for v in topo if v.name in case["district"]], subgraph_variables=Al,
                          subgraph_probability=qa, graph_topo=topo)
         return
     T = frozenset(Variable(n) for n in case["T"])
     C = frozenset(Variable(n) for n in case["C"])
+    from y0.dsl import PP, Distribution
+
+    mk = PP[Variable("π1")] if case.get("tagged") else P
+    Tl = [v for v in topo if v in T]
     if case.get("form") == "joint":
-        qT = P(topo)
+        qT = mk(topo)
+    elif case.get("form") == "suffix-conditional":
+        qT = mk(topo)._new(Distribution(children=tuple(Tl), parents=tuple(topo[: len(topo) - len(Tl)])))
     else:
         with kernel.quiet():
-            qT = compute_c_factor_conditioning_on_topological_predecessors(district=[v for v in topo if v in T],
-                                                                           graph_probability=P(topo), topo=topo)
+            qT = compute_c_factor_conditioning_on_topological_predecessors(district=Tl, graph_probability=mk(topo),
+                                                                           topo=topo)
     try:
         identify_district_variables(input_variables=C, input_district=T, district_probability=qT, graph=g, topo=topo)
     except Exception:  # noqa: BLE001
